@@ -36,7 +36,7 @@ def sem(u):
 
 def fr(x):
     """exponent read from the implementation (int / float / Fraction) as an exact small fraction"""
-    return F(x).limit_denominator(10) if not isinstance(x, int) else F(x)
+    return F(x).limit_denominator(1000) if not isinstance(x, int) else F(x)
 
 
 def units_json(u):
@@ -66,16 +66,34 @@ def unit_string(u, sep="*"):
 
 
 # ----------------------------------------------------------------------------- impl observers
-def impl_parse(s):
-    """parse_unit_string on the real code -> ('ok', sem map) | ('reject', exception class)"""
+class ParseTimeout(Exception):
+    pass
+
+
+def _alarm(*_):
+    raise ParseTimeout()
+
+
+def impl_parse(s, limit=3.0):
+    """parse_unit_string on the real code -> ('ok', sem map) | ('reject', exception class) |
+    ('timeout', seconds): no answer within `limit` seconds of CPU time for one short string"""
+    import signal
     from qexpy.utils import units as U
+    old = signal.signal(signal.SIGVTALRM, _alarm)
+    signal.setitimer(signal.ITIMER_VIRTUAL, limit)
     try:
         with warnings.catch_warnings():
             warnings.simplefilter("ignore")
             r = U.parse_unit_string(s)
+        signal.setitimer(signal.ITIMER_VIRTUAL, 0)
         return "ok", sem({k: fr(v) for k, v in r.items()})
+    except ParseTimeout:
+        return "timeout", str(limit)
     except Exception as e:  # noqa: BLE001  any exception raised for a bad request is a rejection
         return "reject", type(e).__name__
+    finally:
+        signal.setitimer(signal.ITIMER_VIRTUAL, 0)
+        signal.signal(signal.SIGVTALRM, old)
 
 
 def impl_unit_of(qobj):
@@ -285,8 +303,19 @@ def rand_units(rng, syms, nmin=1, nmax=3, emax=4):
     return [(k, F(rng.choice([e for e in range(-emax, emax + 1) if e != 0]))) for k in ks]
 
 
-def leaf(rng, u):
+def leaf(rng, u, defs=None):
+    """a leaf whose (expanded) dimension is u; with definitions active it may be written in
+    named or mixed form (a defined name to some power times the remaining base factors)"""
     u = [(k, v) for k, v in u if v != 0]
+    if defs and rng.random() < 0.6:
+        name = rng.choice(list(defs))
+        ex = expand([(name, F(1))], defs)
+        k = F(rng.choice([-2, -1, 1, 1, 2, 3]))
+        d = dict(u)
+        rest = {s: d.get(s, F(0)) - k * ex.get(s, F(0)) for s in set(d) | set(ex)}
+        rest = [(s, e) for s, e in rest.items() if e != 0]
+        if all(e.denominator == 1 and abs(e) <= 9 for _, e in rest):
+            u = [(name, k)] + sorted(rest)
     rng.shuffle(u)
     return ["leaf", units_json(u), unit_string(u, rng.choice(["*", DOT, "*"]))]
 
@@ -295,7 +324,7 @@ def ok_exps(d):
     return all(v.denominator <= 6 and abs(v.numerator) <= 24 for v in d.values())
 
 
-def route(rng, d, depth):
+def route(rng, d, depth, defs=None):
     """a tree whose dimension is exactly d (dict sym -> Fraction, non-empty), by a random route"""
     ints = all(v.denominator == 1 for v in d.values())
     choices = []
@@ -308,23 +337,23 @@ def route(rng, d, depth):
     for _ in range(12):
         c = rng.choice(choices)
         if c == "leaf":
-            return leaf(rng, list(d.items()))
+            return leaf(rng, list(d.items()), defs)
         if c == "neg":
-            return ["node", "neg", [route(rng, d, depth - 1)]]
+            return ["node", "neg", [route(rng, d, depth - 1, defs)]]
         if c == "mulc":
-            args = [route(rng, d, depth - 1), ["const"]]
+            args = [route(rng, d, depth - 1, defs), ["const"]]
             if rng.random() < 0.5:
                 args.reverse()
             return ["node", "mul", args]
         if c == "sqrt":
             d2 = {s: 2 * e for s, e in d.items()}
             if ok_exps(d2):
-                return ["node", "sqrt", [route(rng, d2, depth - 1)]]
+                return ["node", "sqrt", [route(rng, d2, depth - 1, defs)]]
         if c == "pow":
             k = rng.choice(POWERS)
             d2 = {s: e / k for s, e in d.items()}
             if ok_exps(d2):
-                return ["powc", route(rng, d2, depth - 1), k.numerator, k.denominator]
+                return ["powc", route(rng, d2, depth - 1, defs), k.numerator, k.denominator]
         if c in ("mul", "div"):
             # d = d1 (+|-) d2 with both parts non-empty
             syms = list(d)
@@ -339,41 +368,44 @@ def route(rng, d, depth):
             d1 = {s: d.get(s, F(0)) - sg * d2.get(s, F(0)) for s in set(d) | set(d2)}
             d1 = {s: e for s, e in d1.items() if e != 0}
             if d1 and d2 and ok_exps(d1) and ok_exps(d2):
-                return ["node", c, [route(rng, d1, depth - 1), route(rng, d2, depth - 1)]]
+                return ["node", c, [route(rng, d1, depth - 1, defs), route(rng, d2, depth - 1, defs)]]
     if ints:
-        return leaf(rng, list(d.items()))
+        return leaf(rng, list(d.items()), defs)
     import math
     big = 1
     for v in d.values():
         big = big * v.denominator // math.gcd(big, v.denominator)
     d2 = {s: big * e for s, e in d.items()}
     if big == 2:
-        return ["node", "sqrt", [leaf(rng, list(d2.items()))]]
-    return ["powc", leaf(rng, list(d2.items())), 1, big]
+        return ["node", "sqrt", [leaf(rng, list(d2.items()), defs)]]
+    return ["powc", leaf(rng, list(d2.items()), defs), 1, big]
 
 
-def gen_tree(rng, depth, syms):
+def gen_tree(rng, depth, syms, defs=None):
     """random in-domain tree (no dimensionless intermediate, +/- operands dimension-equal)"""
+    defs = defs or {}
     if depth <= 0 or rng.random() < 0.15:
-        return leaf(rng, rand_units(rng, syms))
+        u = rand_units(rng, syms, emax=3 if defs else 4)
+        rng.shuffle(u)
+        return ["leaf", units_json(u), unit_string(u, rng.choice(["*", DOT, "*"]))]
     c = rng.choice(["mul", "mul", "div", "div", "add", "sub", "add", "pow", "sqrt", "neg", "addc"])
     if c in ("mul", "div"):
-        return ["node", c, [gen_tree(rng, depth - 1, syms), gen_tree(rng, depth - 1, syms)]]
+        return ["node", c, [gen_tree(rng, depth - 1, syms, defs), gen_tree(rng, depth - 1, syms, defs)]]
     if c in ("neg", "sqrt"):
-        return ["node", c, [gen_tree(rng, depth - 1, syms)]]
+        return ["node", c, [gen_tree(rng, depth - 1, syms, defs)]]
     if c == "pow":
         k = rng.choice(POWERS)
-        return ["powc", gen_tree(rng, depth - 1, syms), k.numerator, k.denominator]
+        return ["powc", gen_tree(rng, depth - 1, syms, defs), k.numerator, k.denominator]
     if c == "addc":
-        args = [gen_tree(rng, depth - 1, syms), ["const"]]
+        args = [gen_tree(rng, depth - 1, syms, defs), ["const"]]
         if rng.random() < 0.5:
             args.reverse()
         return ["node", rng.choice(["add", "sub", "mul"]), args]
-    a = gen_tree(rng, depth - 1, syms)
-    da = dim_tree(a, {})
+    a = gen_tree(rng, depth - 1, syms, defs)
+    da = dim_tree(a, defs)
     if da[0] != "ok" or not ok_exps(da[1]):
         return a
-    b = route(rng, da[1], depth - 1)
+    b = route(rng, da[1], depth - 1, defs)
     args = [a, b] if rng.random() < 0.5 else [b, a]
     return ["node", c, args]
 
